@@ -214,6 +214,9 @@ def build_jobs(ctx, rng, n_fresh, n_walks, walk_len, n_trunc, p_perturb):
                 specs.append({'kind': 'truncate', 'keep': k})
             if rng.random() < p_perturb:
                 specs.append({'kind': 'perturb', 'seed': rng.randrange(1 << 30), 'frac': 0.3, 'modes': ['digits', 'neg', 'zero'], 'first_rows': False})
+        for frel, fvs in L.FIXED_VARIANTS:
+            if frel == rel:
+                specs.append(fvs)
         big = len(data) > 700000
         for vs in specs:
             jobs.append(dict(rel=rel, family=family, vspec=vs, tmp=str(ctx.tmp), seed=rng.randrange(1 << 30),
